@@ -26,12 +26,18 @@
    rematch< R, S... > and minus< M, S > against the direct formalisation of their prose (EquivSpanSpec.v: the
    span-restricted evaluation), soundness and completeness ;
    eolf == sor< eof, eol > (every eol policy) ; everything == until< eof, any > ;
+   string< C... > == seq< one< C >... > on byte inputs (C09_string: the model's alphabet is N, see EquivString.v) ;
    ranges< C1, D1, ..., [E] > == sor< range< C1, D1 >, ..., [one< E >] > (char decoder, any number of ranges) ;
    shebang (= seq< string< '#', '!' >, until< eolf > >) == if_must< string< '#', '!' >, until< eolf > > (until< eolf > cannot fail) ;
    list_must< R, S > == seq< R, star< if_must< S, R > > > ;
    CONGRUENCE: every expansion holds in its uniform form (fixed fuel overhead, C09_expansions_uniform), uniform
    equivalence implies obs_equiv, is an equivalence relation, and is preserved by every head that does not name its
    sub-rule (C09_congruence) — documented expansions may be applied inside any rule ;
+   expansions matched modulo equivalence of the sub-rules (C09_rep_modulo, C09_opt_modulo, C09_rep_min_max_modulo, C09_if_must_modulo:
+   what the compiler-dumped schemas need: seq< R > wrappers, public vs internal seq, rep< 0, R > = success) ;
+   the EXTENDED verified table checker (C09_table_equiv2_sound) and its application to ALL (rule, reference clause) pairs
+   of the alias schemas of this run that it accepts (C09_alias_schemas2; at the time of writing 83 of the 87 pairs — all but
+   list_tail< R, S, P > first clause, must< R... > == seq< sor< R, raise< R > >... > (refuted for positions), string == seq< one... >) ;
    obs_equiv is an equivalence relation ; plus the generic lemmas: the verdict of any
    rule is independent of modes / families / fuel (C09_modes_irrelevant) and control-enabled nodes are
    transparent (hook visibility does not influence outcomes); the verified table bisimulation
@@ -41,10 +47,9 @@
    NOT YET PROVED in Coq (they stay covered by the twin oracle of lib/props_c09.py, which runs the real
    library on the rule and on the expansion produced from the reference text): list_tail< R, S, P > first clause,
    must< R... > for several R against seq< sor< R, raise< R > >... > (follows the single-rule statement only up to
-   positions), eol == sor< one< '\n' >, string< '\r', '\n' > >, string< C... > == seq< one< C >... > (true only for inputs whose
-   elements are bytes: the model's input alphabet is N, and one<> compares decoded chars where string<> compares raw bytes),
-   ranges for the multi-byte decoders, contrib rules. *)
-From PegtlV Require Import Base Decode Grammar Engine EngineFacts AtomFacts Mono Equiv EquivFacts EquivEval EquivHeads EquivTable EquivBisim EquivAlias EquivHeads2 EquivTable2 EquivMust EquivSpanSpec EquivSpan EquivTableU EquivCong EquivAtoms EquivAtoms2 EquivShebang EquivAll.
+   positions), eol == sor< one< '\n' >, string< '\r', '\n' > > (lf_crlf only, byte inputs only), ranges for the multi-byte
+   decoders, contrib rules. *)
+From PegtlV Require Import Base Decode Grammar Engine EngineFacts AtomFacts Mono Equiv EquivFacts EquivEval EquivHeads EquivTable EquivBisim EquivAlias EquivHeads2 EquivTable2 EquivMust EquivSpanSpec EquivSpan EquivTableU EquivCong EquivAtoms EquivAtoms2 EquivShebang EquivAll EquivGen EquivBisim2 EquivAlias2 EquivString.
 From PegtlV.gen Require Import AliasC09_gen AliasC09Claims_gen.
 
 (* the verdict of any rule does not depend on apply mode, rewind mode, action/control family, or fuel *)
@@ -338,6 +343,16 @@ Theorem C09_shebang :
 Proof. exact shebang_table. Qed.
 Print Assumptions C09_shebang.
 
+(* string< C... >  ==  seq< one< C >... >  (cursor positions included) on inputs whose elements are bytes: refines_on byte_input.
+   On the model's larger alphabet N the two differ (one<'a'> compares the decoded char, so it accepts the non-byte 353). *)
+Theorem C09_string :
+  forall G C, noact_cfg C -> plain_table G ->
+  forall r1 r2 cs qs,
+    node G r1 (HString cs) [] -> node G r2 HSeq qs -> Forall2 (fun x q => node G q (HOne true PkChar [schar x]) []) cs qs -> bytes cs ->
+    refines_on G C byte_input r1 r2 /\ refines_on G C byte_input r2 r1.
+Proof. exact string_table. Qed.
+Print Assumptions C09_string.
+
 (* ---------- uniform equivalence and congruence: expansions may be applied inside any rule ---------- *)
 Theorem C09_uniform_meaning :
   forall G C r1 r2, uequiv G C r1 r2 -> obs_equiv G C r1 r2.
@@ -414,6 +429,43 @@ Theorem C09_alias_schemas_many : 40 <= length c09_claimed.
 Proof. exact c09_claimed_many. Qed.
 Print Assumptions C09_alias_schemas_many.
 
+(* ---------- expansions modulo equivalence of the sub-rules, and the extended verified checker ---------- *)
+Theorem C09_rep_modulo :
+  forall G C, noact_cfg C -> plain_table G -> table_wf G ->
+  forall r1 r2 r ss, node G r1 (HRep (length ss)) [r] -> node G r2 HSeq ss -> Forall (uequiv G C r) ss -> uequiv G C r1 r2.
+Proof. exact rep_seq_gen. Qed.
+Print Assumptions C09_rep_modulo.
+Theorem C09_opt_modulo :
+  forall G C, noact_cfg C -> plain_table G ->
+  forall r1 r2 x su r, node G r1 HPartial [r] -> node G r2 HSor [x; su] -> node G su HSuccess [] -> uequiv G C r x -> uequiv G C r1 r2.
+Proof. exact opt_sor_gen. Qed.
+Print Assumptions C09_opt_modulo.
+Theorem C09_rep_min_max_modulo :
+  forall G C, noact_cfg C -> plain_table G -> table_wf G ->
+  forall mn mx r1 r2 a b na r,
+    node G r1 (HRepMinMax mn mx) [r] ->
+    node G r2 HSeq [a; b; na] -> rep_like G a mn r -> repopt_like G b (mx - mn) r -> node G na HNotAt [r] -> uequiv G C r1 r2.
+Proof. exact rep_min_max_gen. Qed.
+Print Assumptions C09_rep_min_max_modulo.
+Theorem C09_if_must_modulo :
+  forall G C, noact_cfg C -> plain_table G -> table_wf G ->
+  forall r1 r2 cnd cnd' m m',
+    node G r1 (HIfMust false) [cnd; m] -> node G r2 HSeq [cnd'; m'] -> uequiv G C cnd cnd' -> leq G C m m' -> uequiv G C r1 r2.
+Proof. exact if_must_seq_gen. Qed.
+Print Assumptions C09_if_must_modulo.
+
+Theorem C09_table_equiv2_sound :
+  forall G0 G C, noact_cfg C -> plain_table G -> table_wf G -> extends G0 G ->
+  forall k r1 r2, table_equiv2 G0 k r1 r2 = true -> obs_equiv G C r1 r2.
+Proof. exact table_equiv2_sound. Qed.
+Print Assumptions C09_table_equiv2_sound.
+(* every pair of c09_pairs (ALL the rule / reference-clause pairs dumped on this run) that the extended checker accepts *)
+Theorem C09_alias_schemas2 :
+  forall G C, noact_cfg C -> plain_table G -> table_wf G -> extends aliasC09_table G ->
+  forall p, In p c09_decided2 -> obs_equiv G C (fst p) (snd p).
+Proof. exact alias_schemas_equiv2. Qed.
+Print Assumptions C09_alias_schemas2.
+
 (* REFUTED as an equality of error POSITIONS (kind and raising rule agree): must< R > == sor< R, raise< R > >.
    must< seq< one<'a'>, one<'b'> > > on "ac": the rule raises for seq< a, b > at byte 1 (where the sub-rule, matched in
    optional mode, left the cursor), the documented expansion at byte 0 (sor rewinds its non-last alternative). *)
@@ -462,3 +514,53 @@ Proof.
   - split; eexists; eexists; eexists; vm_compute; repeat split; reflexivity.
 Qed.
 Print Assumptions C09_example.
+
+(* non-vacuity of round 2: rep_min_max< 1, 3, one<'a'> > and star_strict< one<'a'>, one<'b'> > with their expansions in one table *)
+Definition ex2_G : grammar :=
+  [ mknode (HRepMinMax 1 3) [6]%nat true;              (* 0 rep_min_max< 1, 3, A > *)
+    mknode HSeq [2; 3; 4]%nat true;                    (* 1 seq< rep< 1, A >, rep_opt< 2, A >, not_at< A > > *)
+    mknode (HRep 1) [6]%nat true;                      (* 2 *)
+    mknode (HRepOpt 2) [6]%nat true;                   (* 3 *)
+    mknode HNotAt [6]%nat true;                        (* 4 *)
+    mknode HStarStrict [6; 7]%nat true;                (* 5 star_strict< A, B > *)
+    mknode (HOne true PkChar [97%Z]) [] true;          (* 6 A = one<'a'> *)
+    mknode (HOne true PkChar [98%Z]) [] true;          (* 7 B = one<'b'> *)
+    mknode HSeq [9; 4]%nat true;                       (* 8 seq< star< A, B >, not_at< A > > *)
+    mknode HStarPartial [10]%nat true;                 (* 9 star< seq< A, B > > *)
+    mknode HSeq [6; 7]%nat false ].                    (* 10 internal::seq< A, B > *)
+Example C09_example2 :
+  noact_cfg ex_C /\ plain_table ex2_G /\ table_wf ex2_G /\ obs_equiv ex2_G ex_C 0%nat 1%nat /\ obs_equiv ex2_G ex_C 5%nat 8%nat /\
+  (exists c' e1 e2, eval ex2_G ex_C 30 (mkdyn true true 0 0 0) 0%nat (mkcur [97; 97; 98]%N pos0) = Res Ok c' e1 /\
+                    eval ex2_G ex_C 30 (mkdyn true true 0 0 0) 1%nat (mkcur [97; 97; 98]%N pos0) = Res Ok c' e2 /\ rest c' = [98%N]) /\
+  (exists c' e1 e2, eval ex2_G ex_C 30 (mkdyn true true 0 0 0) 0%nat (mkcur [97; 97; 97; 97]%N pos0) = Res Fail c' e1 /\
+                    eval ex2_G ex_C 30 (mkdyn true true 0 0 0) 1%nat (mkcur [97; 97; 97; 97]%N pos0) = Res Fail c' e2) /\
+  (exists c' e1 e2, eval ex2_G ex_C 30 (mkdyn true true 0 0 0) 5%nat (mkcur [97; 98; 97; 98]%N pos0) = Res Ok c' e1 /\
+                    eval ex2_G ex_C 30 (mkdyn true true 0 0 0) 8%nat (mkcur [97; 98; 97; 98]%N pos0) = Res Ok c' e2 /\ rest c' = []) /\
+  (exists c' e1 e2, eval ex2_G ex_C 30 (mkdyn true true 0 0 0) 5%nat (mkcur [97; 98; 97]%N pos0) = Res Fail c' e1 /\
+                    eval ex2_G ex_C 30 (mkdyn true true 0 0 0) 8%nat (mkcur [97; 98; 97]%N pos0) = Res Fail c' e2).
+Proof.
+  assert (HC : noact_cfg ex_C) by (split; intros; reflexivity).
+  assert (HP : plain_table ex2_G).
+  { intros r nd H. do 11 (destruct r as [|r]; [simpl in H; inversion H; subst; simpl; split; [exact I | intros; discriminate]|]). destruct r; discriminate. }
+  assert (HW : table_wf ex2_G).
+  { intros r nd H. do 11 (destruct r as [|r]; [simpl in H; inversion H; subst; exact I|]). destruct r; discriminate. }
+  split; [exact HC|]. split; [exact HP|]. split; [exact HW|]. split; [|split].
+  - apply (rep_min_max_table ex2_G ex_C HC HP HW 1 3 0 1 2 3 4 6)%nat; eexists; (split; [reflexivity|]); split; reflexivity.
+  - apply (star_strict_table ex2_G ex_C HC HP HW 5 8 9 10 4 6 [7])%nat; eexists; (split; [reflexivity|]); split; reflexivity.
+  - repeat split; eexists; eexists; eexists; vm_compute; repeat split; reflexivity.
+Qed.
+Print Assumptions C09_example2.
+
+(* why C09_string is stated on byte inputs: on the model's alphabet N the element 353 (= 97 + 256, not a byte) is accepted by
+   one<'a'> (which compares the decoded char) and rejected by string<'a'> (which compares raw elements).  A model artefact:
+   the elements of a real input are bytes. *)
+Definition sr_G : grammar :=
+  [ mknode (HString [97%N]) [] true;                   (* 0 string<'a'> *)
+    mknode HSeq [2]%nat true;                          (* 1 seq< one<'a'> > *)
+    mknode (HOne true PkChar [97%Z]) [] true ].        (* 2 one<'a'> *)
+Theorem C09_string_nonbyte_refuted :
+  exists c1 c2 e1 e2,
+    eval sr_G mr_C 20 (mkdyn true true 0 0 0) 0%nat (mkcur [353]%N pos0) = Res Fail c1 e1 /\
+    eval sr_G mr_C 20 (mkdyn true true 0 0 0) 1%nat (mkcur [353]%N pos0) = Res Ok c2 e2.
+Proof. do 4 eexists. vm_compute. split; reflexivity. Qed.
+Print Assumptions C09_string_nonbyte_refuted.
